@@ -42,7 +42,9 @@ class SimRaw(io.RawIOBase):
         self.calls = 0
         self.dead = False
         self.fault = fs.take_fault(path, mode)
-        if "w" in mode:
+        if "w" in mode and "n" in mode:
+            fs.disk.files.setdefault(path, bytearray())     # os.open(O_WRONLY|O_CREAT) without O_TRUNC
+        elif "w" in mode:
             fs.disk.files[path] = bytearray()      # truncate at open, like the real thing
         elif "a" in mode:
             fs.disk.files.setdefault(path, bytearray())
@@ -57,6 +59,12 @@ class SimRaw(io.RawIOBase):
 
     def writable(self):
         return any(c in self.mode for c in "wa+")
+
+    def truncate(self, size=None):
+        data = self.fs.disk.files[self.path]
+        size = self.pos if size is None else size
+        del data[size:]
+        return size
 
     def seekable(self):
         return True
@@ -125,6 +133,7 @@ class SimFS:
         self.armed = None          # one fault for the next matching open
         self.written = {}          # path -> bytes taken since last arm()/reset
         self.opens = []            # (path, mode) history, for oracles
+        self.fds = {}              # fake descriptors handed out by OsProxy.open
 
     # fault plan ---------------------------------------------------------
     def arm(self, fault):
@@ -157,11 +166,19 @@ class SimFS:
     # open ------------------------------------------------------------------
     def open(self, file, mode="r", buffering=-1, encoding=None, errors=None,
              newline=None, closefd=True, opener=None):
+        if isinstance(file, int) and file in self.fds:       # a fake descriptor from OsProxy.open
+            path, flags = self.fds.pop(file)
+            return self._open_path(path, mode, encoding, errors, newline, no_truncate=True)
         if not is_sim(file):
             return builtins.open(file, mode, buffering, encoding, errors, newline, closefd, opener)
+        return self._open_path(file, mode, encoding, errors, newline)
+
+    def _open_path(self, file, mode, encoding=None, errors=None, newline=None, no_truncate=False):
         self.opens.append((file, mode))
         binary = "b" in mode
         core = mode.replace("b", "").replace("t", "")
+        if no_truncate and "w" in core:
+            core += "n"
         raw = SimRaw(self, file, core)
         if any(c in core for c in "wa"):
             buf = io.BufferedWriter(raw)
@@ -180,6 +197,88 @@ class SimFS:
 
     def exists(self, path):
         return path in self.disk.files
+
+
+class OsPathProxy:
+    def __init__(self, real, fs):
+        self._real, self._fs = real, fs
+
+    def __getattr__(self, name):
+        return getattr(self._real, name)
+
+    def exists(self, p):
+        return p in self._fs.disk.files if is_sim(p) else self._real.exists(p)
+
+    isfile = exists
+
+
+class OsProxy:
+    """Stands in for the ``os`` global of a patched module so that the usual 'durable save' idioms
+    (os.open + os.fdopen, write to a temporary name + os.replace, os.fsync, os.remove) act on the
+    simulated disk for sim:/ paths.  Everything else passes through to the real os module."""
+
+    def __init__(self, real_os, fs):
+        object.__setattr__(self, "_os", real_os)
+        object.__setattr__(self, "_fs", fs)
+        object.__setattr__(self, "path", OsPathProxy(real_os.path, fs))
+        object.__setattr__(self, "_next", [1 << 20])
+
+    def __getattr__(self, name):
+        return getattr(self._os, name)
+
+    def open(self, path, flags, mode=0o777, *a, **k):
+        if not is_sim(path):
+            return self._os.open(path, flags, mode, *a, **k)
+        files = self._fs.disk.files
+        if path not in files:
+            if not flags & self._os.O_CREAT:
+                raise FileNotFoundError(errno.ENOENT, "No such file or directory", path)
+            files[path] = bytearray()
+        elif flags & self._os.O_EXCL and flags & self._os.O_CREAT:
+            raise FileExistsError(errno.EEXIST, "File exists", path)
+        if flags & self._os.O_TRUNC:
+            files[path] = bytearray()
+        fd = self._next[0]
+        self._next[0] += 1
+        self._fs.fds[fd] = (path, flags)
+        return fd
+
+    def fdopen(self, fd, *args, **kwargs):
+        if fd in self._fs.fds:
+            return self._fs.open(fd, *args, **kwargs)
+        return self._os.fdopen(fd, *args, **kwargs)
+
+    def fsync(self, fd):
+        if isinstance(fd, int) and fd >= (1 << 20):
+            return None
+        return self._os.fsync(fd)
+
+    def close(self, fd):
+        if fd in self._fs.fds:
+            self._fs.fds.pop(fd)
+            return None
+        return self._os.close(fd)
+
+    def replace(self, src, dst, *a, **k):
+        if is_sim(src) and is_sim(dst):
+            files = self._fs.disk.files
+            if src not in files:
+                raise FileNotFoundError(errno.ENOENT, "No such file or directory", src)
+            files[dst] = files.pop(src)
+            return None
+        return self._os.replace(src, dst, *a, **k)
+
+    rename = replace
+
+    def remove(self, path, *a, **k):
+        if is_sim(path):
+            if path not in self._fs.disk.files:
+                raise FileNotFoundError(errno.ENOENT, "No such file or directory", path)
+            del self._fs.disk.files[path]
+            return None
+        return self._os.remove(path, *a, **k)
+
+    unlink = remove
 
 
 class NpProxy:
@@ -219,6 +318,11 @@ class Patched:
         for m in self.modules:
             self.saved.append((m, "open", m.__dict__.get("open", _MISSING)))
             m.open = self.fs.open
+        for m in self.modules:
+            # `os` as the module sees it (if it imports os at all) acts on the simulated disk too
+            import os as _real_os
+            self.saved.append((m, "os", m.__dict__.get("os", _MISSING)))
+            m.os = OsProxy(_real_os, self.fs)
         for m in self.npm:
             self.saved.append((m, "np", m.__dict__.get("np", _MISSING)))
             m.np = NpProxy(m.__dict__["np"], self.fs)
